@@ -107,7 +107,21 @@ def main():
     if ck.replay:
         body = json.load(open(os.path.join(VERIF, ck.replay) if not os.path.isabs(ck.replay) else ck.replay))
         c = body["case"]
-        if "q" in c:
+        if "classes" in c:
+            from cayleypy import PermutationGroups as PG
+
+            d = PG.conjugacy_classes(c["n"], {tuple(k): v for k, v in c["classes"]})
+            gens = [list(map(int, g)) for g in d.generators_permutations]
+            pos = 0
+            ck.case(["replay", c], True)
+            for key, cnt in c["classes"]:
+                lens = sorted(list(key) + [1] * (c["n"] - sum(key)))
+                k = class_size(c["n"], lens) if cnt is None else cnt
+                if any(cycle_type(g) != lens for g in gens[pos : pos + k]) or len(gens[pos : pos + k]) != k:
+                    ck.violation("C20/conjugacy-classes/multi", f"class {key}: wrong cycle types", {"case": c})
+                    break
+                pos += k
+        elif "q" in c:
             check_pair(ck, drv, c["p"], c["q"], c["x"])
         elif "cycles" in c:
             try:
@@ -279,6 +293,46 @@ def main():
             if len({tuple(p) for p in real}) != len(real) or any(cycle_type(p) != sorted(lens) for p in real) or len(real) != class_size(n, lens):
                 ck.violation("C20/conjugacy-class", f"S_{n} class {lens}: enumeration returned {len(real)} permutations ({len({tuple(p) for p in real})} distinct), the class has {class_size(n, lens)}", {"case": {"n": n, "cycle_lengths": lens2}, "observed_count": len(real), "expected_count": class_size(n, lens)})
                 break
+    # ---- several classes in one call, enumerated and sampled mixed (PermutationGroups.conjugacy_classes): the generators
+    # come class by class in the order of the dict; an enumerated class is complete, a sampled class has exactly the
+    # requested number of permutations, each of that class's cycle type
+    from cayleypy import PermutationGroups as PG
+
+    for _ in range(40 if not ck.thorough else 1500):
+        n = rng.randint(4, 8)
+        parts = [p for p in partitions(n) if len(p) - p.count(1) >= 1]
+        keys = rng.sample(parts, min(len(parts), rng.randint(2, 3)))
+        classes = {}
+        for lens in keys:
+            key = [l for l in lens if l > 1] + [1] * rng.randint(0, lens.count(1))
+            rng.shuffle(key)
+            classes[tuple(key)] = None if (rng.random() < 0.4 and class_size(n, lens) <= 300) else rng.randint(1, 6)
+        case = {"n": n, "classes": [[list(k), v] for k, v in classes.items()]}
+        ck.case(["conj-multi", n, case["classes"]], True)
+        ck.count("conjugacy_classes with several classes")
+        try:
+            d = PG.conjugacy_classes(n, classes)
+        except (AssertionError, ValueError, KeyError, IndexError) as ex:
+            ck.violation("C20/conjugacy-classes/raises", f"conjugacy_classes raised {type(ex).__name__}: {ex}", {"case": case})
+            continue
+        gens = [list(map(int, g)) for g in d.generators_permutations]
+        pos, bad = 0, None
+        for (key, cnt), lens in zip(classes.items(), keys):
+            k = class_size(n, lens) if cnt is None else cnt
+            block = gens[pos : pos + k]
+            pos += k
+            if len(block) != k:
+                bad = f"class {key}: {len(block)} generators instead of {k}"
+            elif any(sorted(g) != list(range(n)) or cycle_type(g) != sorted(lens) for g in block):
+                bad = f"class {key}: a generator is not a permutation of cycle type {sorted(lens, reverse=True)}"
+            elif cnt is None and len({tuple(g) for g in block}) != k:
+                bad = f"class {key}: enumerated class lists a permutation twice"
+            if bad:
+                break
+        if not bad and pos != len(gens):
+            bad = f"{len(gens)} generators in total, {pos} requested"
+        if bad:
+            ck.violation("C20/conjugacy-classes/multi", "conjugacy_classes with several classes: " + bad, {"case": case, "cycle_types_observed": [cycle_type(g) for g in gens][:20]})
     # ---- single-sample constructor
     for _ in range(200 if not ck.thorough else 5000):
         lens = [rng.randint(1, 5) for _ in range(rng.randint(1, 5))]
